@@ -492,6 +492,30 @@ func ruleCoLocationInputs(c *Ctx) {
 			}
 		}
 	}
+	// "the stores of the region's peers" means all of them, whatever their role: a learner occupies its zone too
+	grs := P.Method("server/core", "BasicCluster", "GetRegionStores")
+	c.saw(fnName(grs))
+	all, restricted := false, ""
+	for _, fn := range withCallees(grs, 1) {
+		if fn != grs && !(fnPkgPath(fn) == modPath+"/server/core" && fn.Name() == "GetStoreIds") {
+			continue
+		}
+		for _, b := range fn.Blocks {
+			for _, ins := range b.Instrs {
+				cl, ok := ins.(*ssa.Call)
+				if !ok || cl.Call.StaticCallee() == nil {
+					continue
+				}
+				switch cl.Call.StaticCallee().Name() {
+				case "GetPeers":
+					all = true
+				case "GetVoters", "GetLearners", "GetFollowers", "GetFollower", "GetPendingPeers", "GetDownPeers", "GetPendingVoter", "GetDownVoter":
+					restricted = cl.Call.StaticCallee().Name()
+				}
+			}
+		}
+	}
+	c.Check(all && restricted == "", rule, "peers enumerated by "+fnName(grs), "every peer of the region (GetPeers/GetStoreIds), not the peers of one role", P.pos(grs.Pos()), "role-restricted getter "+restricted)
 	if nRule < 4 || nRepl < 4 {
 		c.Undec(rule, "strategy calls in the rule checker / replica checker", "at least 4 each", "", fmt.Sprintf("%d / %d", nRule, nRepl))
 	}
